@@ -7,6 +7,7 @@
 package c17race
 
 import (
+	"encoding/hex"
 	"fmt"
 	"os"
 	"path/filepath"
@@ -127,6 +128,24 @@ func once(it int, out *Out) error {
 			W.Wallets()
 			W.SyncedTo()
 			count(7)
+		}
+	}()
+	wg.Add(1)
+	go func() { // a second client building, estimating and signing at the same time (same addresses)
+		defer wg.Done()
+		for k := 0; k < 8; k++ {
+			amt, _ := massutil.NewAmountFromInt(world.Mass)
+			req := map[string]massutil.Amount{saddr.EncodeAddress(): amt}
+			// (WalletManager.EstimateTxFee is not called directly: it relies on its callers' lock)
+			if hx, _, err := W.AutoCreateRawTransaction(req, 0, massutil.ZeroAmount(), "", "", nil); err == nil {
+				if b, derr := hex.DecodeString(hx); derr == nil {
+					var tx wire.MsgTx
+					if tx.SetBytes(b, wire.Packet) == nil {
+						W.SignRawTx([]byte(world.PassA), "ALL", &tx)
+					}
+				}
+			}
+			count(2)
 		}
 	}()
 	go func() { // address issuing and listing
